@@ -138,4 +138,113 @@ theorem sliced_value_column (sz : Nat → Nat) (p : Nat → Nat → Bool) (rate 
   rw [e1, gridIdx_rho sz p rate hnd i d hdr hi']
   simp [List.getD_eq_getElem?_getD, List.getElem?_map, List.getElem?_eq_getElem hdig]
 
+/-- the selected reference values of dimension `d`, in index order -/
+def Wsel (sz : Nat → Nat) (p : Nat → Nat → Bool) (V : Nat → List Int) (d : Nat) : List Int :=
+  (L sz p d).map (fun j => (V d).getD j 0)
+
+theorem prod_pos_of_forall (f : Nat → Nat) : ∀ (l : List Nat), (∀ x ∈ l, 0 < f x) → 0 < (l.map f).prod
+  | [], _ => by simp
+  | x :: xs, h => by
+    rw [List.map_cons, List.prod_cons]
+    exact Nat.mul_pos (h x (by simp)) (prod_pos_of_forall f xs (fun y hy => h y (List.mem_cons_of_mem _ hy)))
+
+theorem stride_pos (f : Nat → Nat) (rate : List Nat) (d : Nat) (h : ∀ x ∈ rate, 0 < f x) : 0 < strideBefore f rate d := by
+  unfold strideBefore
+  exact prod_pos_of_forall f _ (fun x hx => h x ((List.takeWhile_sublist _).subset hx))
+
+theorem postProd_pos (f : Nat → Nat) (rate : List Nat) (d : Nat) (h : ∀ x ∈ rate, 0 < f x) : 0 < postProd f rate d := by
+  unfold postProd
+  exact prod_pos_of_forall f _ (fun x hx => h x ((List.dropWhile_sublist _).subset ((List.drop_sublist _ _).subset hx)))
+
+/-- **Unit values of the sliced side.**  On the rows selected by a product selection (every dimension keeps
+    at least one index) `get_unit_values` returns, for every dimension, the reference values at its selected
+    indices, in index order. -/
+theorem unit_values_sliced (sz : Nat → Nat) (rate : List Nat) (k : Nat) (V : Nat → List Int) (sels : List (List Nat))
+    (labels : List String) (hperm : rate.Perm (List.range k)) (hk : sels.length = k) (hkpos : 0 < k)
+    (hl : labels.length = k) (hnd : labels.Nodup)
+    (hsel : ∀ d ∈ rate, 0 < s' sz (selPred sels) d) :
+    let rows := selectedRows (pointMatrix sz rate k) sels
+    getUnitValues (pickRows (pointMatrix sz rate k) rows) (pickRows (pointValues sz rate k V) rows) labels none (some false) =
+      .ok (labels.zip ((List.range k).map (Wsel sz (selPred sels) V))) := by
+  intro rows
+  have hrows : rows = (List.range (rate.map (s' sz (selPred sels))).prod).map (rho sz (selPred sels) rate) :=
+    selectedRows_eq sz rate k sels hperm hk
+  have hnd' : rate.Nodup := hperm.nodup_iff.mpr List.nodup_range
+  have hN' : 0 < (rate.map (s' sz (selPred sels))).prod := prod_pos_of_forall _ rate hsel
+  -- shape facts
+  have hlen1 : (pickRows (pointMatrix sz rate k) rows).length = rows.length := by simp [pickRows]
+  have hlen2 : (pickRows (pointValues sz rate k V) rows).length = rows.length := by simp [pickRows]
+  have hrowslen : rows.length = (rate.map (s' sz (selPred sels))).prod := by rw [hrows]; simp
+  have hr0 : rho sz (selPred sels) rate 0 < npoints sz rate := rho_lt sz _ rate hnd' 0 hN'
+  have hhead1 : (pickRows (pointMatrix sz rate k) rows).headD [] = (List.range k).map (fun d => gridIdx sz rate (rho sz (selPred sels) rate 0) d) := by
+    rw [hrows]
+    obtain ⟨n, hn⟩ : ∃ n, (rate.map (s' sz (selPred sels))).prod = n + 1 := ⟨_, (Nat.succ_pred_eq_of_pos hN').symm⟩
+    rw [hn, List.range_succ_eq_map]
+    simp [pickRows, pointMatrix, List.getD_eq_getElem?_getD, List.getElem?_range hr0]
+  have hhead2 : ((pickRows (pointValues sz rate k V) rows).headD []).length = k := by
+    rw [hrows]
+    obtain ⟨n, hn⟩ : ∃ n, (rate.map (s' sz (selPred sels))).prod = n + 1 := ⟨_, (Nat.succ_pred_eq_of_pos hN').symm⟩
+    rw [hn, List.range_succ_eq_map]
+    simp [pickRows, pointValues, List.getD_eq_getElem?_getD, List.getElem?_range hr0]
+  have hncols : ncols (pickRows (pointMatrix sz rate k) rows) = k := by
+    unfold ncols; rw [hhead1]; simp
+  -- the transposed matrices, row by row
+  have hI : transposeM (pickRows (pointMatrix sz rate k) rows) = (List.range k).map (fun d =>
+      (periodicRow (strideBefore (s' sz (selPred sels)) rate d) (s' sz (selPred sels) d) (postProd (s' sz (selPred sels)) rate d)).map
+        (fun j => (L sz (selPred sels) d).getD j 0)) := by
+    have hne : pickRows (pointMatrix sz rate k) rows ≠ [] := by
+      intro h0; rw [h0] at hlen1; rw [hrowslen] at hlen1; simp at hlen1; omega
+    unfold transposeM
+    cases hm : pickRows (pointMatrix sz rate k) rows with
+    | nil => exact absurd hm hne
+    | cons r0 rest =>
+      have hr0len : r0.length = k := by
+        have := hhead1; rw [hm] at this; simp at this; rw [this]; simp
+      simp only [hr0len]
+      apply List.map_congr_left
+      intro d hd
+      rw [← hm]
+      have := sliced_index_column sz (selPred sels) rate k d hperm (List.mem_range.mp hd)
+      rw [← this, hrows]
+      simp [pickRows, List.map_map, Function.comp_def]
+  have hVm : transposeI (pickRows (pointValues sz rate k V) rows) = (List.range k).map (fun d =>
+      (List.range (postProd (s' sz (selPred sels)) rate d * (strideBefore (s' sz (selPred sels)) rate d * s' sz (selPred sels) d))).map
+        (fun r => (Wsel sz (selPred sels) V d).getD (r / strideBefore (s' sz (selPred sels)) rate d % s' sz (selPred sels) d) 0)) := by
+    have hne : pickRows (pointValues sz rate k V) rows ≠ [] := by
+      intro h0; rw [h0] at hlen2; rw [hrowslen] at hlen2; simp at hlen2; omega
+    unfold transposeI
+    cases hm : pickRows (pointValues sz rate k V) rows with
+    | nil => exact absurd hm hne
+    | cons r0 rest =>
+      have hr0len : r0.length = k := by
+        have := hhead2; rw [hm] at this; simpa using this
+      simp only [hr0len]
+      apply List.map_congr_left
+      intro d hd
+      rw [← hm]
+      have := sliced_value_column sz (selPred sels) rate k d V hperm (List.mem_range.mp hd)
+      unfold Wsel
+      rw [← this, hrows]
+      simp [pickRows, List.map_map, Function.comp_def]
+  have hall : labels.all (fun nm => labels.contains nm) = true := by
+    rw [List.all_eq_true]; intro x hx; simpa using hx
+  have hrowsUV := getUnitValues_rows k (fun d => strideBefore (s' sz (selPred sels)) rate d) (fun d => s' sz (selPred sels) d)
+    (fun d => postProd (s' sz (selPred sels)) rate d) (fun d j => (L sz (selPred sels) d).getD j 0) (Wsel sz (selPred sels) V)
+    labels hl hnd (by
+      intro d hd
+      have hdr : d ∈ rate := hperm.symm.subset (List.mem_range.mpr hd)
+      refine ⟨stride_pos _ rate d hsel, hsel d hdr, postProd_pos _ rate d hsel, by simp [Wsel, s'], ?_⟩
+      exact L_strict sz _ d _ (periodicRow_lt _ _ _ (hsel d hdr)))
+    _ _ hI hVm
+  unfold getUnitValues
+  simp only [hlen1, hlen2, bne_self_eq_false, hncols, hhead2, Bool.or_self, Bool.false_eq_true, if_false, bind, Except.bind,
+    pure, Except.pure, hl, Option.getD_none, hall, Bool.not_true, hrowsUV]
+  have hlenI : (transposeM (pickRows (pointMatrix sz rate k) rows)).length = k := by rw [hI]; simp
+  simp only [hlenI, bne_self_eq_false, Bool.false_eq_true, if_false]
+  congr 1
+  rw [List.filter_eq_self]
+  intro p hp
+  have := (List.of_mem_zip hp).1
+  simpa using this
+
 end Usid.SliceTo
